@@ -60,6 +60,9 @@ class Link:
         self.eof_written = False
         self.fatal = None         # class name of the exception that left data_received
         self.lost_args = []       # what connection_lost was called with (exception class name / None)
+        self.reading = True
+        self.stalled = False      # (Wire only: the accessory is not reading) - kept for a uniform interface
+        self.max_buffered = 0
 
     # transport API used by the protocol
     def is_closing(self):
@@ -83,6 +86,62 @@ class Link:
 
     def get_extra_info(self, name, default=None):
         return default
+
+    # the rest of asyncio.Transport, so that code which uses it behaves as on a real transport instead of dying
+    # with an AttributeError (which, inside data_received, would look like the fatal-error teardown)
+    UNKNOWN = set()
+
+    def __getattr__(self, item):
+        if not (item.startswith("__") and item.endswith("__")):
+            Link.UNKNOWN.add(item)
+        raise AttributeError(item)
+
+    def pause_reading(self):
+        self.reading = False
+
+    def resume_reading(self):
+        self.reading = True
+
+    def is_reading(self):
+        return self.reading and not self.closing
+
+    def get_write_buffer_size(self):
+        return 0
+
+    def get_write_buffer_limits(self):
+        return (16384, 65536)
+
+    def set_write_buffer_limits(self, high=None, low=None):
+        pass
+
+    def set_protocol(self, protocol):
+        self.proto = protocol
+
+    def get_protocol(self):
+        return self.proto
+
+    # backend interface shared with Wire (the real asyncio transport)
+    def written(self):
+        return b"".join(self.writes)
+
+    async def settle(self):
+        await asyncio.sleep(0)
+
+    async def drain_all(self):
+        pass
+
+    def peer_close(self):
+        """the accessory closes the connection: eof_received(); a falsy result closes the transport"""
+        if self.conn_lost or self.closing:
+            return
+        keep = self.proto.eof_received()
+        if not keep:
+            self.close()
+
+    def shutdown(self):
+        pass
+
+    peer_saw_close = None
 
     def close(self):
         if self.closing:
@@ -110,7 +169,7 @@ class Link:
 
     def deliver(self, data: bytes):
         """_read_ready__data_received: returns False when the read is not delivered any more."""
-        if self.conn_lost or self.closing:
+        if self.conn_lost or self.closing or not self.reading:
             return False
         try:
             self.proto.data_received(data)
@@ -181,6 +240,111 @@ class Recorder:
 
     def is_read_completely(self):
         return False
+
+
+class Wire:
+    """The REAL asyncio transport (_SelectorSocketTransport of the running loop) over a socketpair; the accessory is
+    the raw socket at the other end.  Nothing of asyncio's contract is emulated here: fatal-error teardown, close(),
+    write buffering, pause_writing()/resume_writing() and eof_received() are the event loop's own."""
+
+    def __init__(self, transport, asock, conn):
+        self.transport, self.asock, self.conn = transport, asock, conn
+        self.rx = b""
+        self.stalled = False          # the accessory is not reading
+        self.peer_saw_close = False
+        self.max_buffered = 0
+
+    def written(self):
+        if not self.stalled and self.asock is not None:
+            while True:
+                try:
+                    d = self.asock.recv(1 << 20)
+                except (BlockingIOError, InterruptedError):
+                    break
+                except OSError:
+                    self.peer_saw_close = True
+                    break
+                if not d:
+                    self.peer_saw_close = True
+                    break
+                self.rx += d
+        return self.rx
+
+    def deliver(self, data):
+        try:
+            self.asock.sendall(data)
+            return True
+        except OSError:
+            return False
+
+    async def settle(self):
+        for _ in range(4):
+            await asyncio.sleep(0)
+        try:
+            self.max_buffered = max(self.max_buffered, self.transport.get_write_buffer_size())
+        except Exception:  # noqa
+            pass
+
+    async def drain_all(self):
+        """the accessory reads until the controller's transport has nothing buffered any more"""
+        for _ in range(2000):
+            n = len(self.rx)
+            self.written()
+            await self.settle()
+            try:
+                pending = self.transport.get_write_buffer_size()
+            except Exception:  # noqa
+                pending = 0
+            if len(self.rx) == n and (pending == 0 or self.transport.is_closing()):
+                break
+
+    def peer_close(self):
+        try:
+            self.asock.shutdown(2)
+        except OSError:
+            pass
+
+    @property
+    def ended(self):
+        return bool(self.transport.is_closing() and self.conn.lost)
+
+    @property
+    def end_mode(self):
+        if not self.ended:
+            return "open"
+        return ("fatal:" + self.conn.lost[-1]) if self.conn.lost[-1] else "closed-by-protocol"
+
+    def shutdown(self):
+        try:
+            self.transport.abort()
+        except Exception:  # noqa
+            pass
+        try:
+            self.asock.close()
+        except OSError:
+            pass
+
+
+async def make_wire(a2c_key, c2a_key, a2c_ctr=0, c2a_ctr=0, sndbuf=None):
+    """the production construction path: create_connection(InsecureHomeKitProtocol, sock=...), then the switch to
+    SecureHomeKitProtocol via transport.set_protocol + connection_made (HomeKitConnection._connect_once)"""
+    import socket
+    from aiohomekit.controller.ip.connection import InsecureHomeKitProtocol, SecureHomeKitProtocol
+    loop = asyncio.get_running_loop()
+    csock, asock = socket.socketpair()
+    csock.setblocking(False)
+    asock.setblocking(False)
+    if sndbuf:
+        csock.setsockopt(socket.SOL_SOCKET, socket.SO_SNDBUF, sndbuf)
+    conn = FakeConnection()
+    transport, _ = await loop.create_connection(lambda: InsecureHomeKitProtocol(conn), sock=csock)
+    proto = SecureHomeKitProtocol(conn, a2c_key, c2a_key)
+    transport.set_protocol(proto)
+    proto.connection_made(transport)
+    conn.transport, conn.protocol = transport, proto
+    proto.a2c_counter = a2c_ctr
+    proto.c2a_counter = c2a_ctr
+    return proto, Wire(transport, asock, conn), conn
 
 
 def make_proto(a2c_key, c2a_key, a2c_ctr=0, c2a_ctr=0, record=False):
@@ -847,6 +1011,24 @@ def gen_session(tier, r):
                               [2 + n + 16, 2 + n + 16 + 2 + (len(ev) - n) + 16], send_at=[where])
             c["style"] = "event-split/send@%d" % where
             cases.append(c)
+    # the 2^64 boundary on a live session: a request that needs a counter >= 2^64 raises, nothing is written, the session
+    # stays open for reading, the counter sticks at 2^64 (every later non-empty request raises too)
+    for start in (CTR_MAX - 1, CTR_MAX - 2, CTR_MAX - 3, CTR_MAX):
+        for lens in ([1, 1, 1], [1025, 1, 1], [1, 2049, 1], [2048, 1, 1025], [3000, 1]):
+            msgs = [("E", rbytes(r, 30)), ("E", rbytes(r, 60))]
+            c = build_session(r, msgs, [], [], [r.randrange(1, 250) for _ in range(3)], tx0=start, rx0=r.choice([0, 5]))
+            for n in lens:
+                c["reqs"].append(rbytes(r, n))
+                c["ops"].insert(r.randrange(len(c["ops"]) + 1), ("S", len(c["reqs"]) - 1))
+            c["ops"].sort(key=lambda op: 0)          # (stable: keeps order; requests stay in issue order below)
+            order = [op for op in c["ops"] if op[0] == "S"]
+            k = 0
+            for j, op in enumerate(c["ops"]):        # requests must be issued in index order
+                if op[0] == "S":
+                    c["ops"][j] = ("S", k)
+                    k += 1
+            c["style"] = "ctr-limit"
+            cases.append(c)
     # random duplex sessions
     for _ in range(500 if quick else 8000):
         nreq = r.choice([0, 1, 1, 2, 3])
@@ -911,7 +1093,7 @@ def sess_line(c):
         elif op[0] == "R":
             toks.append("R:" + hx(op[1]))
         else:
-            toks.append(op[0])
+            toks.append({"X": "C", "Z": "P", "D": "U"}.get(op[0], op[0]))
     return "sess %d %d %d %s %s" % (c["rx0"], c["tx0"], len(ents), " ".join(ents), " ".join(toks))
 
 
@@ -920,60 +1102,85 @@ async def spin(n=3):
         await asyncio.sleep(0)
 
 
-async def impl_session(c):
+async def impl_session(c, backend="link"):
+    """ops additionally understood: ("Z",) the accessory stops reading, ("D",) it reads again, ("X",) it closes the
+    connection.  backend "link" = the emulated transport, "wire" = the real asyncio transport over a socketpair."""
     from aiohomekit.exceptions import AccessoryDisconnectedError
-    proto, link, conn, _ = make_proto(c["a2c_key"], c["c2a_key"], c["rx0"], c["tx0"])
+    if backend == "wire":
+        proto, link, conn = await make_wire(c["a2c_key"], c["c2a_key"], c["rx0"], c["tx0"], sndbuf=c.get("sndbuf"))
+    else:
+        proto, link, conn, _ = make_proto(c["a2c_key"], c["c2a_key"], c["rx0"], c["tx0"])
     tasks, trace, paused = {}, [], False
-    for op in c["ops"]:
-        tok = op[0]
-        if op[0] == "S":
-            t = asyncio.ensure_future(proto.send_bytes(c["reqs"][op[1]]))
-            tasks[op[1]] = t
-            await spin(2)
-            if t.done() and not t.cancelled() and t.exception() is not None:
-                e = t.exception()
-                tok = "r" if isinstance(e, AccessoryDisconnectedError) else ("x" if isinstance(e, struct.error) else "o:" + type(e).__name__)
-            else:
-                tok = "w"
-        elif op[0] == "R":
-            link.deliver(op[1])
-            await spin(1)
-            tok = "d"
-        elif op[0] == "C":
-            t = tasks.get(op[1])
-            if t is not None and not t.done():
+    try:
+        for op in c["ops"]:
+            tok = op[0]
+            if op[0] == "S":
+                t = asyncio.ensure_future(proto.send_bytes(c["reqs"][op[1]]))
+                tasks[op[1]] = t
+                await spin(2)
+                if t.done() and not t.cancelled() and t.exception() is not None:
+                    e = t.exception()
+                    tok = "r" if isinstance(e, AccessoryDisconnectedError) else ("x" if isinstance(e, struct.error) else "o:" + type(e).__name__)
+                else:
+                    tok = "w"
+                await link.settle()
+            elif op[0] == "R":
+                link.deliver(op[1])
+                await link.settle()
+                tok = "d"
+            elif op[0] == "C":
+                t = tasks.get(op[1])
+                if t is not None and not t.done():
+                    t.cancel()
+                await spin(3)
+                await link.settle()
+                tok = "c"
+            elif op[0] == "X":
+                link.peer_close()
+                await link.settle()
+                await spin(2)
+                tok = "c"
+            elif op[0] == "P":
+                paused = True
+                proto.pause_writing()
+            elif op[0] == "U":
+                paused = False
+                proto.resume_writing()
+                await spin(4)
+            elif op[0] == "Z":
+                link.stalled = True
+            elif op[0] == "D":
+                link.stalled = False
+                await link.drain_all()
+                await spin(3)
+            done = sorted(i for i, t in tasks.items() if t.done() and not t.cancelled() and t.exception() is None)
+            trace.append(dict(tok=tok, paused=paused or getattr(link, "stalled", False), written=link.written(), ended=link.ended,
+                              events=len(conn.events), responses=len([i for i in done if i < c["answered"]])))
+        await spin(4)
+        await link.settle()
+        link.stalled = False
+        await link.drain_all()
+        final = dict(written=link.written(), ended=link.ended, end=link.end_mode,
+                     events=[bytes(e.body) for e in conn.events], responses={}, status={},
+                     peer_saw_close=link.peer_saw_close, max_buffered=getattr(link, "max_buffered", 0))
+        for i, t in tasks.items():
+            if not t.done():
+                final["status"][i] = "pending"
                 t.cancel()
-            await spin(3)
-            tok = "c"
-        elif op[0] == "P":
-            paused = True
-            proto.pause_writing()
-        elif op[0] == "U":
-            paused = False
-            proto.resume_writing()
-            await spin(4)
-        done = sorted(i for i, t in tasks.items() if t.done() and not t.cancelled() and t.exception() is None)
-        trace.append(dict(tok=tok, paused=paused, written=b"".join(link.writes), ended=link.ended,
-                          events=len(conn.events), responses=len([i for i in done if i < c["answered"]])))
-    await spin(4)
-    final = dict(written=b"".join(link.writes), ended=link.ended, end=link.end_mode,
-                 events=[bytes(e.body) for e in conn.events], responses={}, status={})
-    for i, t in tasks.items():
-        if not t.done():
-            final["status"][i] = "pending"
-            t.cancel()
-            try:
-                await t
-            except BaseException:  # noqa
-                pass
-        elif t.cancelled():
-            final["status"][i] = "cancelled"
-        elif t.exception() is not None:
-            final["status"][i] = "exc:" + type(t.exception()).__name__
-        else:
-            final["status"][i] = "ok"
-            final["responses"][i] = bytes(t.result().body)
-    return trace, final
+                try:
+                    await t
+                except BaseException:  # noqa
+                    pass
+            elif t.cancelled():
+                final["status"][i] = "cancelled"
+            elif t.exception() is not None:
+                final["status"][i] = "exc:" + type(t.exception()).__name__
+            else:
+                final["status"][i] = "ok"
+                final["responses"][i] = bytes(t.result().body)
+        return trace, final
+    finally:
+        link.shutdown()
 
 
 def model_session(c, ans):
@@ -1015,9 +1222,9 @@ def oracle_session(c, trace, final):
         for old in range(c["tx0"], rx.ctr):
             if ref.open_(c["c2a_key"], ref.nonce(old), hdr, body) is not None:
                 return ("send:session-nonce-reuse", f"frame {len(rx.delivered)} on the wire is sealed with counter {old}, already used")
-        for new in range(rx.ctr + 1, rx.ctr + 40):
+        for new in range(rx.ctr + 1, rx.ctr + 400):
             if ref.open_(c["c2a_key"], ref.nonce(new), hdr, body) is not None:
-                unsent = [i for i in issued if final["status"].get(i) in ("cancelled", "pending")]
+                unsent = [i for i in issued if final["status"].get(i) != "ok" or i in cancelled][:12]
                 return ("send:counter-skipped-after-unsent-request",
                         f"the session is {'still open' if not final['ended'] else 'closed'}; frame {len(rx.delivered)} on the wire is sealed "
                         f"with counter {new} but the accessory has only seen {rx.ctr - c['tx0']} frames (expects {rx.ctr}): request(s) "
@@ -1041,7 +1248,7 @@ def oracle_session(c, trace, final):
     # ---- (b) reads that reached the session before a cancellation closed it
     upto = len(c["ops"])
     for k, op in enumerate(c["ops"]):
-        if op[0] == "C" and op[1] in emitted:
+        if (op[0] == "C" and op[1] in emitted) or op[0] == "X":
             upto = k
             break
     data = b"".join(op[1] for op in c["ops"][:upto] if op[0] == "R")
@@ -1064,7 +1271,61 @@ def oracle_session(c, trace, final):
         return ("recv:session-ended-without-cause", f"no authentication failure, no cancellation, yet the session ended ({final['end']})")
     if rr.dead and not final["ended"]:
         return ("recv:auth-failure-session-not-ended", "a frame failed authentication but the session goes on")
+    if rr.dead and final.get("peer_saw_close") is False:
+        return ("recv:auth-failure-peer-not-disconnected",
+                "a frame failed authentication but the accessory's end of the (real) connection is still open")
     return None
+
+
+# ---------------------------------------------------------------- wire stream: the real asyncio transport
+def gen_wire(tier, r):
+    """session scripts for the real transport (no explicit pause/resume: flow control is the event loop's own)"""
+    quick = tier == "quick"
+    cases = []
+    for _ in range(110 if quick else 1500):
+        nreq = r.choice([0, 1, 2, 3])
+        msgs, k = [], 0
+        for _ in range(r.choice([1, 2, 3]) + nreq):
+            if k < nreq and r.random() < 0.5:
+                msgs.append(("A", k, rbytes(r, r.choice([0, 1, 30, 1000, 1500]))))
+                k += 1
+            else:
+                msgs.append(("E", rbytes(r, r.choice([1, 30, 200, 1100, 2500]))))
+        while k < nreq:
+            msgs.append(("A", k, rbytes(r, r.choice([0, 1, 30, 1000]))))
+            k += 1
+        reqs = [rbytes(r, r.choice([1, 2, 100, 1023, 1024, 1025, 2049])) for _ in range(nreq)]
+        approx = sum(len(m[-1]) + 90 for m in msgs)
+        flip = (r.randrange(1 << 30), r.randrange(8)) if r.random() < 0.35 else None
+        c = build_session(r, msgs, reqs, [], [r.randrange(1, approx * 2) for _ in range(r.choice([1, 2, 4, 8]))], flip=flip,
+                          rx0=r.choice([0, 0, 7, (1 << 32) - 1]), tx0=r.choice([0, 0, 3, (1 << 32) - 1]))
+        c["style"] = "wire-duplex" + ("+corrupt" if flip else "")
+        m = r.random()
+        if m < 0.2:
+            add_extra_request(r, c, rbytes(r, r.choice([1, 100, 1025])), cancel=True, pause=False, resume_later=False)
+            c["style"] = "wire-cancel"
+        elif m < 0.35:
+            c["ops"].append(("X",))                                     # the accessory closes the connection ...
+            c["reqs"].append(rbytes(r, 10))
+            c["ops"].append(("S", len(c["reqs"]) - 1))                  # ... a later request must be refused
+            c["style"] = "wire-peer-close"
+        elif m < 0.6:
+            c["reqs"].append(rbytes(r, r.choice([1, 100, 1025])))
+            c["ops"].append(("S", len(c["reqs"]) - 1))
+        cases.append(c)
+    # real back-pressure: the accessory stops reading while the controller keeps issuing large requests, until the
+    # transport's write buffer is over its high-water mark (pause_writing() called by the event loop), then reads again
+    for _ in range(10 if quick else 60):
+        k = r.randrange(18, 30)
+        reqs = [rbytes(r, r.choice([4096, 5000, 6000])) for _ in range(k)] + [rbytes(r, r.choice([1, 100, 1025])) for _ in range(3)]
+        msgs = [("A", i, rbytes(r, r.choice([1, 30]))) for i in range(len(reqs))]
+        c = build_session(r, msgs, reqs, [], [r.randrange(1, 3000) for _ in range(3)], send_at=[0] * len(reqs))
+        ops = [("Z",)] + c["ops"][:k] + [("D",)] + c["ops"][k:]
+        c["ops"] = ops
+        c["sndbuf"] = 4096
+        c["style"] = "wire-backpressure"
+        cases.append(c)
+    return cases
 
 
 # ---------------------------------------------------------------- kernel cross-check of the extracted driver
@@ -1107,6 +1368,22 @@ Fixpoint feeds (opn : bytes -> bytes -> bytes -> option bytes) (st : rstate) (se
       [match fst so with Dead => 1%N | Live _ _ => 0%N end; N.of_nat (length (snd so))]
         ++ concat (map show_bs (snd so)) ++ feeds opn (fst so) r
   end.
+(* driver command "sess": ip_sess_step folded over the script *)
+Definition show_ev (s' : sess) (e : sev) : list N :=
+  match e with
+  | EWrote fs => [0%N; N.of_nat (length fs)] ++ concat (map show_f fs)
+  | ERaise => [1%N]
+  | ERefused => [2%N]
+  | EDeliv ps => [3%N; match s_rx s' with Dead => 1%N | Live _ _ => 0%N end; N.of_nat (length ps)]
+                   ++ concat (map show_bs ps)
+  | EClosed => [4%N]
+  | ENop => [5%N]
+  end.
+Fixpoint sessr (opn : bytes -> bytes -> bytes -> option bytes) (s : sess) (ops : list sop) : list N :=
+  match ops with
+  | [] => []
+  | o :: r => let se := ip_sess_step opn s o in show_ev (fst se) (snd se) ++ sessr opn (fst se) r
+  end.
 """
 
 
@@ -1125,6 +1402,17 @@ def coq_request(line):
         tbl = "; ".join("(%s, %s, %s, %s)" % tuple(coq_bytes(unhx(x)) for x in e.split(":")) for e in ents)
         return "feeds (lookup [%s]) (Live %s %s%%N) [%s]" % (tbl, coq_bytes(unhx(w[2])), w[1],
                                                              "; ".join(coq_bytes(unhx(s)) for s in segs))
+    if w[0] == "sess":
+        n = int(w[3])
+        ents, ops = w[4:4 + n], w[4 + n:]
+        tbl = "; ".join("(%s, %s, %s, %s)" % tuple(coq_bytes(unhx(x)) for x in e.split(":")) for e in ents)
+
+        def op(tok):
+            if tok in ("C", "P", "U"):
+                return {"C": "OCancel", "P": "OPause", "U": "OResume"}[tok]
+            k, h = tok.split(":")
+            return ("OSend " if k == "S" else "ORecv ") + coq_bytes(unhx(h))
+        return "sessr (lookup [%s]) (mkSess (Live [] %s%%N) %s%%N) [%s]" % (tbl, w[1], w[2], "; ".join(op(t) for t in ops))
     raise ValueError("unknown request kind " + w[0])
 
 
@@ -1145,6 +1433,23 @@ def flat_answer(line, ans):
                 for tok in t[2:]:
                     prefix, nonce, ctr, aad, chunk = tok.split(":")
                     out += bs(prefix) + bs(nonce) + [int(ctr)] + bs(aad) + bs(chunk)
+            return out
+        if line.startswith("sess"):
+            for tok in ans.split(" "):
+                if tok[0] == "w":
+                    fr = [] if tok[2:] == "." else tok[2:].split(",")
+                    out += [0, len(fr)]
+                    for f in fr:
+                        prefix, nonce, ctr, aad, chunk = f.split(":")
+                        out += bs(prefix) + bs(nonce) + [int(ctr)] + bs(aad) + bs(chunk)
+                elif tok[0] == "d":
+                    _, st, o = tok.split("/")
+                    pts = [] if o == "." else o.split(",")
+                    out += [3, {"L": 0, "D": 1}[st], len(pts)]
+                    for p_ in pts:
+                        out += bs(p_)
+                else:
+                    out += [{"x": 1, "r": 2, "c": 4, "n": 5}[tok]]
             return out
         t = ans.split(" ")
         for tok in t[:-1]:
@@ -1222,6 +1527,7 @@ def run(ctx):
     cov = Coverage("send: distinct (start counter, payload lengths) session with >= 1 non-empty payload; "
                    "pipelined-send: distinct (start counter, payload lengths, schedule) with >= 2 requests in flight; "
                    "session: distinct script of requests / reads / cancel / pause / resume on one protocol object; "
+                   "wire: distinct session script run on the real asyncio transport; "
                    "recv: distinct (frame sizes, corruption, read boundaries) with >= 1 complete frame or a corruption; "
                    "event: distinct body-length lists")
     viols = []
@@ -1238,6 +1544,8 @@ def run(ctx):
     event_cases = gen_event(tier, rng(seed, "c05event"))
     pipe_cases = gen_pipe(tier, rng(seed, "c05pipe"))
     sess_cases = gen_session(tier, rng(seed, "c05sess"))
+    wire_cases = gen_wire(tier, rng(seed, "c05wire"))
+    Link.UNKNOWN.clear()
 
     send_lines = ["sends %d %s" % (c["ctr"], " ".join(hx(p) for p in c["payloads"])) for c in send_cases]
     recv_lines = [recv_line(c) for c in recv_cases]
@@ -1245,7 +1553,9 @@ def run(ctx):
     send_model = drv.batch(send_lines)
     recv_model = drv.batch(recv_lines)
     pipe_model = drv.batch(pipe_lines)
-    sess_model = drv.batch([sess_line(c) for c in sess_cases])
+    sess_lines = [sess_line(c) for c in sess_cases]
+    sess_model = drv.batch(sess_lines)
+    wire_model = drv.batch([sess_line(c) for c in wire_cases])
 
     async def all_impl():
         s = [await impl_send_session(c) for c in send_cases]
@@ -1253,14 +1563,15 @@ def run(ctx):
         ev = [await impl_event(c) for c in event_cases]
         pp = [await impl_pipe(c) for c in pipe_cases]
         ss = [await impl_session(c) for c in sess_cases]
-        return s, rv, ev, pp, ss
+        ww = [(await impl_session(c, "wire"), await impl_session(c, "link")) for c in wire_cases]
+        return s, rv, ev, pp, ss, ww
 
     loop = asyncio.new_event_loop()
     loop.set_exception_handler(lambda l, c: None)
     prev_disable = logging.root.manager.disable
     logging.disable(logging.CRITICAL)      # the code under test may log per corrupted frame
     try:
-        send_impl, recv_impl, event_impl, pipe_impl, sess_impl = loop.run_until_complete(all_impl())
+        send_impl, recv_impl, event_impl, pipe_impl, sess_impl, wire_impl = loop.run_until_complete(all_impl())
     finally:
         logging.disable(prev_disable)
         loop.close()
@@ -1337,26 +1648,30 @@ def run(ctx):
                  pipe_requests=len(c["lens"]),
                  pipe_schedule=c["schedule"])
 
-    # ---- session: requests, reads, cancellation and flow-control callbacks interleaved on one live protocol
-    for ci, (c, m_ans, (trace, final)) in enumerate(zip(sess_cases, sess_model, sess_impl)):
+    # ---- session / wire: requests, reads, cancellation and flow control interleaved on one live protocol
+    def judge(stream, c, m_ans, trace, final, ci):
         mexp = model_session(c, m_ans)
 
         def show(op):
             return ("S%d:%d" % (op[1], len(c["reqs"][op[1]]))) if op[0] == "S" else ("R:%d" % len(op[1])) if op[0] == "R" else \
                    ("C%d" % op[1]) if op[0] == "C" else op[0]
         small = len(c["stream"]) <= 600
-        rep = dict(stream="session", style=c["style"], a2c_key=hx(c["a2c_key"]), c2a_key=hx(c["c2a_key"]),
-                   a2c_counter=c["rx0"], c2a_counter=c["tx0"], script=[show(op) for op in c["ops"]],
-                   requests=[hx(p)[:200] for p in c["reqs"]], answered_requests=c["answered"],
-                   accessory_messages=[(m[0], len(m[-1])) for m in c["msgs"]], frame_sizes=[len(f) for f in c["frames"]],
+        rep = dict(stream=stream, style=c["style"], a2c_key=hx(c["a2c_key"]), c2a_key=hx(c["c2a_key"]),
+                   a2c_counter=c["rx0"], c2a_counter=c["tx0"], script=[show(op) for op in c["ops"]][:80],
+                   requests=[hx(p)[:200] for p in c["reqs"]][:40], answered_requests=c["answered"],
+                   accessory_messages=[(m[0], len(m[-1])) for m in c["msgs"]][:40], frame_sizes=[len(f) for f in c["frames"]][:60],
                    reads=[hx(op[1]) for op in c["ops"] if op[0] == "R"] if small else [len(op[1]) for op in c["ops"] if op[0] == "R"],
                    corrupted=c["corrupted"], impl_final=dict(ended=final["ended"], end=final["end"], status=final["status"],
-                                                             events=[len(e) for e in final["events"]], written=len(final["written"])),
+                                                             events=[len(e) for e in final["events"]], written=len(final["written"]),
+                                                             peer_saw_close=final.get("peer_saw_close"),
+                                                             max_write_buffer=final.get("max_buffered")),
                    impl_trace=[(t["tok"], len(t["written"]), t["ended"], t["events"], t["responses"]) for t in trace][:40],
                    model_trace=[(t["tok"], len(t["written"]), t["ended"], t["events"], t["responses"]) for t in mexp][:40])
+        script = rep["script"] + ["..."] * len(c["ops"])
         orc = oracle_session(c, trace, final)
         if orc is not None:
-            report(orc[0], f"session ({c['style']}, script {' '.join(rep['script'])[:160]}): {orc[1]}", True, **rep)
+            key = orc[0] if stream == "session" else orc[0].replace("send:", "send:wire-", 1).replace("recv:", "recv:wire-", 1)
+            report(key, f"{stream} ({c['style']}, script {' '.join(rep['script'])[:160]}): {orc[1]}", True, **rep)
         else:
             for k, (ti, tm) in enumerate(zip(trace, mexp)):
                 if ti["paused"]:
@@ -1364,16 +1679,39 @@ def run(ctx):
                 same = (ti["written"] == tm["written"] and ti["ended"] == tm["ended"] and ti["events"] == tm["events"]
                         and ti["responses"] == tm["responses"] and (tm["tok"] is None or ti["tok"] == tm["tok"]))
                 if not same:
-                    report("session:model-mismatch", f"after op {k} ({rep['script'][k]}) of {c['style']} session: implementation "
+                    report(stream + ":model-mismatch", f"after op {k} ({script[k]}) of {c['style']} script: implementation "
                            f"{(ti['tok'], len(ti['written']), ti['ended'], ti['events'], ti['responses'])} != model "
                            f"{(tm['tok'], len(tm['written']), tm['ended'], tm['events'], tm['responses'])}", False,
                            broken="correspondence Model/Frame.v sess_step <-> SecureHomeKitProtocol on one live object", **rep)
                     break
+        return rep, mexp
+
+    for ci, (c, m_ans, (trace, final)) in enumerate(zip(sess_cases, sess_model, sess_impl)):
+        rep, mexp = judge("session", c, m_ans, trace, final, ci)
         cov.case("x" + repr(rep["script"]) + hx(c["stream"][:32]), True,
                  sample=dict(stream="session", style=c["style"], script=rep["script"][:14], frames=rep["frame_sizes"][:8],
                              events=len(final["events"]), ended=final["end"]) if ci % 97 == 0 else None,
                  sess_style=c["style"].split("/")[0], sess_end=final["end"], sess_requests=len(c["reqs"]),
                  sess_send_mid_message=any(t["tok"] == "w" and any(a < t["plain"] < b for _, _, a, b in c["spans"]) for t in mexp))
+
+    # the same scripts on the REAL asyncio transport (socketpair), and on Link: the emulation must agree with the real thing
+    for ci, (c, m_ans, ((trace, final), (ltrace, lfinal))) in enumerate(zip(wire_cases, wire_model, wire_impl)):
+        rep, mexp = judge("wire", c, m_ans, trace, final, ci)
+        a = (final["events"], final["responses"], final["status"], final["written"], final["ended"], final["end"],
+             [(t["ended"], t["events"], t["responses"]) for t in trace])
+        b_ = (lfinal["events"], lfinal["responses"], lfinal["status"], lfinal["written"], lfinal["ended"], lfinal["end"],
+              [(t["ended"], t["events"], t["responses"]) for t in ltrace])
+        if a != b_:
+            which = [n for n, x, y in zip(("events", "responses", "status", "written", "ended", "end", "per-op"), a, b_) if x != y]
+            report("wire:link-emulation-differs", f"the real asyncio transport and harness Link disagree on {which} for a "
+                   f"{c['style']} script ({' '.join(rep['script'])[:120]}): real end={final['end']} status={final['status']}, "
+                   f"Link end={lfinal['end']} status={lfinal['status']}"[:400], False,
+                   broken="harness/c05.py::Link as an emulation of asyncio's selector transport", **rep)
+        cov.case("w" + repr(rep["script"]) + hx(c["stream"][:32]), True,
+                 sample=dict(stream="wire", style=c["style"], script=rep["script"][:14], ended=final["end"],
+                             peer_saw_close=final["peer_saw_close"], max_write_buffer=final["max_buffered"]) if ci % 23 == 0 else None,
+                 wire_style=c["style"], wire_end=final["end"], wire_peer_saw_close=final["peer_saw_close"],
+                 wire_transport_paused_writing=final["max_buffered"] > 65536)
 
     # ---- recv
     for ci, (c, m_ans, (toks, info)) in enumerate(zip(recv_cases, recv_model, recv_impl)):
@@ -1408,6 +1746,10 @@ def run(ctx):
                  sample=dict(stream="event", body_lens=rep["body_lens"], frames=nframes, corrupted=c["flip"]) if ci % 97 == 0 else None,
                  event_msgs=len(c["bodies"]), event_corrupted=c["flip"])
 
+    if Link.UNKNOWN:
+        report("harness:fake-transport-incomplete",
+               f"the protocol used transport attribute(s) {sorted(Link.UNKNOWN)} that harness/c05.py::Link does not provide; the "
+               f"resulting AttributeError may have been mistaken for a session teardown", False, attributes=sorted(Link.UNKNOWN))
     if FakeConnection.UNKNOWN:
         report("harness:fake-connection-incomplete",
                f"the protocol accessed connection attribute(s) {sorted(FakeConnection.UNKNOWN)} that harness/c05.py::FakeConnection "
@@ -1415,10 +1757,24 @@ def run(ctx):
                attributes=sorted(FakeConnection.UNKNOWN))
     if not ctx.get("replay"):
         vm_pairs = vm_sample(send_lines, send_model, pipe_lines, pipe_model, recv_lines, recv_cases, recv_model)
+        # the "sess" command too: small scripts of every style (incl. cancel, pause/resume, refused and raising requests)
+        by_style = {}
+        for i, (l, c) in enumerate(zip(sess_lines, sess_cases)):
+            if len(l) <= (2600 if c["style"] == "ctr-limit" else 1500):
+                by_style.setdefault((c["style"].split("/")[0], "x" in sess_model[i].split(" "), "r" in sess_model[i].split(" ")), []).append(i)
+        for key in sorted(by_style):
+            idx = by_style[key]
+            vm_pairs += [(sess_lines[i], sess_model[i]) for i in sorted({idx[0], idx[len(idx) // 2]})]
+        vm_pairs = vm_pairs[:48]
+        cov.extra["vm_compute_sess_styles"] = sorted({"%s%s%s" % (k[0], "+raise" if k[1] else "", "+refused" if k[2] else "") for k in by_style})
+        import time as _time
+        _t0 = _time.time()
         n_vm, bad_vm = vm_crosscheck(ctx, vm_pairs)
-        cov.extra["vm_compute_crosscheck"] = dict(requests=n_vm, disagreements=len(bad_vm),
+        _vm_s = round(_time.time() - _t0, 1)
+        cov.extra["vm_compute_crosscheck"] = dict(requests=n_vm, disagreements=len(bad_vm), seconds=_vm_s,
                                                   sends_requests=sum(1 for l, _ in vm_pairs if l.startswith("sends")),
-                                                  feed_requests=sum(1 for l, _ in vm_pairs if l.startswith("feed")))
+                                                  feed_requests=sum(1 for l, _ in vm_pairs if l.startswith("feed")),
+                                                  sess_requests=sum(1 for l, _ in vm_pairs if l.startswith("sess")))
         if bad_vm:
             line, got, ans = bad_vm[0]
             report("extraction-vs-vm_compute", f"{len(bad_vm)} of {n_vm} sampled requests: extracted driver and vm_compute disagree "
